@@ -370,11 +370,13 @@ fn bfs<C: CellType>(ctx: &mut WorkerCtx, depth: usize, place: usize) {
         let last = d == depth;
         let mut next = Vec::new();
         let mut t = 0u64;
+        let mut visited = 0u64;
         for (fi, hist) in frontier.iter().enumerate() {
             if last && (fi as u64) % nshards != shard {
                 continue;
             }
-            if fi % 256 == 0 {
+            visited += 1;
+            if visited % 64 == 1 {
                 ctx.mark(d as u64 * 1_000_000_000 + fi as u64, (C::BITS as u64) << 8 | place as u64, hist_str(hist).as_bytes());
             }
             for op in &alpha {
